@@ -1,5 +1,6 @@
 """C13 — safe code cannot adopt a pointer without a barrier (DESIGN.md §4 C13): enumerate every way
 safe code can obtain a &Write<T> or an unlocked cell and check each against a reviewed table."""
+import re
 from gcv import facts, model, witness
 from gcv.props import common, C03 as c03
 from gcv.model import norm
@@ -237,13 +238,21 @@ def index_write(chk, prog, c):
         ik = it.get("k")
         idx_ok = ik in ("uint",) or (ik == "adt" and it["def"].startswith("core::ops::range::")) or ik == "ref" \
             or (ik == "param" and any(p["k"] == "trait" and p["trait"] == "barrier::IndexWrite" for p in im["predicates"]))
+        why_not = ""
         if ik == "ref":
-            # &Q with Q constrained by std traits only (Borrow/Ord/Hash/Equivalent)
-            idx_ok = True
+            # &Q: which `Index<&Q>` impl carries the Write must be pinned to the container's own - by the very relation
+            # between key and query type that impl demands (K: Borrow<Q>; hashbrown: Q: Equivalent<K>). A bare
+            # `Self: Index<&Q>` defers to *any* impl, and `&LocalType` is local enough for a downstream crate to write one
+            # whose body goes through a Gc (seed C13-f)
+            ps = [p["s"] for p in im["predicates"]]
+            tied = any(re.search(r": core::borrow::Borrow<\w+>$", s_) or re.search(r": hashbrown::Equivalent<\w+>$", s_) for s_ in ps)
+            idx_ok = tied
+            if not tied:
+                why_not = " (the index is a reference and no `K: Borrow<Q>` / `Q: Equivalent<K>` bound pins the container's own Index impl: predicates %s)" % ps
         ok = d in INDEX_SELF and idx_ok
         chk.inst("R13.3-index-write-impls", "%s as IndexWrite<%s>[%s]" % (im["self_s"], it.get("s"), c), ok,
                  detail="unreviewed `unsafe impl IndexWrite<%s> for %s`: Self must be an owning std container and the "
-                        "index a std index type (no third-party Index impl may carry a Write)" % (it.get("s"), im["self_s"]),
+                        "index a std index type (no third-party Index impl may carry a Write)%s" % (it.get("s"), im["self_s"], why_not),
                  loc="%s:%s" % (im["span"]["f"], im["span"]["l"]))
     chk.floor("IndexWrite-impls[%s]" % c, n, 5)
 
